@@ -42,6 +42,7 @@ class CaseBuilder:
         pol = self.cfg["policy"]
         if expiry is None: expiry = 2000 + self.r.below(500)
         if rel is None: rel = pol[2] + self.r.below(500)
+        if isinstance(amount_tlv, bytes): amount_tlv = {"hex": amount_tlv.hex()}
         e = {"e": "htlc", "_inv": inv, "_amount_tlv": amount_tlv, "_raw": raw_payload,
              "req": request(b"", phash(h), amt, expiry, rel, self.next_id, forward=(amt if forward == "amt" else forward), total=total, scid=scid)}
         self.next_id += 1
@@ -50,6 +51,7 @@ class CaseBuilder:
 def finalize_htlc(e, bolt11s):
     e = json.loads(json.dumps(e))
     inv, atlv, raw = e.pop("_inv"), e.pop("_amount_tlv"), e.pop("_raw")
+    if isinstance(atlv, dict): atlv = bytes.fromhex(atlv["hex"])
     if raw is not None:
         pl = bytes.fromhex(raw)
     else:
@@ -74,7 +76,7 @@ def std_pool(r, b, h, amount=1000000, npieces=None):
     extra = []
     if r.chance(1, 2): extra.append(b.htlc(inv, 1000, total))                                    # over-funding piece
     if r.chance(1, 3): extra.append(b.htlc(inv, pieces[0], total, rel=max(0, pol[2] - 1 - r.below(10))))   # expiry too low
-    if r.chance(1, 3): extra.append(b.htlc(inv, pieces[0], need - 1))                            # declared total too low
+    if r.chance(1, 3): extra.append(b.htlc(inv, pieces[0], max(0, need - 1)))                            # declared total too low
     if r.chance(1, 4):
         inv2 = b.add_invoice(h, amount, ts=99)                                                   # conflicting invoice, same hash
         extra.append(b.htlc(inv2, pieces[0], total))
@@ -114,3 +116,156 @@ def prepare(case, bolt11_of):
     if "_script" in c:
         c["script"] = [finalize_htlc(e, bolt11_of) if e.get("e") == "htlc" else e for e in c.pop("_script")]
     return c
+
+# ------------------------------------------------------------------------------------------
+# scripted stories
+# ------------------------------------------------------------------------------------------
+PAY_ENDINGS = ["complete", "failed_noparts", "failed_after_partfail", "pending_then_done", "pending_then_fail",
+               "error_then_done", "error_then_fail", "warn_then_done", "warn_then_fail", "two_parts_one_done", "two_parts_both_fail"]
+
+def pay_ending(r, kind):
+    """Events from the moment the pay call is outstanding (unprocessed) to its fate."""
+    ev = [{"e": "proc_next"}]           # the node starts the pay command
+    codes = [202, 203, 204, 209]
+    if kind == "complete":
+        ev += [{"e": "newpart_next"}, {"e": "part_next", "st": "done"}, {"e": "payfin_next", "out": "complete"}]
+    elif kind == "failed_noparts":
+        ev += [{"e": "payfin_next", "out": "failed"}]
+    elif kind == "failed_after_partfail":
+        ev += [{"e": "newpart_next"}, {"e": "part_next", "st": "fail", "code": r.choice(codes)}, {"e": "payfin_next", "out": "failed"}]
+    elif kind in ("pending_then_done", "pending_then_fail", "error_then_done", "error_then_fail", "warn_then_done", "warn_then_fail"):
+        out = {"pending": "pending", "error": "error", "warn": "failed_warn"}[kind.split("_")[0]]
+        fin = {"e": "payfin_next", "out": out}
+        if out == "error": fin["err"] = r.choice(["transport", "-1", "210", "nocode"])
+        last = {"e": "part_next", "st": "done"} if kind.endswith("done") else {"e": "part_next", "st": "fail", "code": r.choice(codes)}
+        ev += [{"e": "newpart_next"}, fin]
+        # the part resolves at a random point of the wait_payment that follows
+        pos = r.below(6)
+        tail = [{"e": "drain_step"}] * 8
+        tail.insert(pos, last)
+        ev += tail
+    elif kind == "two_parts_one_done":
+        ev += [{"e": "newpart_next"}, {"e": "newpart_next"}, {"e": "payfin_next", "out": "pending"}]
+        tail = [{"e": "drain_step"}] * 10
+        tail.insert(r.below(8), {"e": "part_next", "st": "fail", "code": r.choice(codes), "nth": r.below(2)})
+        tail.insert(r.below(9), {"e": "part_next", "st": "done"})
+        ev += tail
+    elif kind == "two_parts_both_fail":
+        ev += [{"e": "newpart_next"}, {"e": "newpart_next"}, {"e": "payfin_next", "out": r.choice(["pending", "failed_warn", "error"])}]
+        tail = [{"e": "drain_step"}] * 10
+        tail.insert(r.below(8), {"e": "part_next", "st": "fail", "code": r.choice(codes)})
+        tail.insert(r.below(9), {"e": "part_next", "st": "fail", "code": r.choice(codes)})
+        ev += tail
+    return ev
+
+def story_case(r, ending=None, npieces=None, reject=None, nhash=1, heights=True, cfg=None, amount=None, second=False):
+    """One payment from first HTLC to its fate. reject: None | (kind, position)"""
+    cfg = cfg or mk_cfg(r)
+    b = CaseBuilder(r, cfg, nhash)
+    amount = amount or r.choice([1000000, 21000, 10**9, 1])
+    pol = cfg["policy"]
+    inv = b.add_invoice(0, amount)
+    need = fee_needed(pol, amount)
+    total = need + r.choice([0, 0, 1, 5000])
+    pieces = split_amount(r, total, npieces or (1 + r.below(3)))
+    hts = [b.htlc(inv, p, total, expiry=r.choice([1500, 2000, 2400, 70000]), rel=pol[2] + r.below(600)) for p in pieces]
+    if reject:
+        kind, pos = reject
+        if kind == "low_expiry": x = b.htlc(inv, 1000, total, rel=max(0, pol[2] - 1 - r.below(5)))
+        elif kind == "low_total": x = b.htlc(inv, 1000, max(0, need - 1 - r.below(3)))
+        elif kind == "other_invoice": x = b.htlc(b.add_invoice(0, amount, ts=77), 1000, total)
+        else: x = b.htlc(b.add_invoice(0, None), 1000, total, amount_tlv=amount + 7)     # other amount
+        hts.insert(min(pos, len(hts)), x)
+    script = []
+    if heights: script.append({"e": "height", "v": r.choice([0, 100, 1400, 1466, 1467, 3000])})
+    for i, h in enumerate(hts):
+        script.append(h)
+        for _ in range(r.below(4)): script.append({"e": "drain_step"})
+        if heights and r.chance(1, 4): script.append({"e": "height", "v": r.below(2500)})
+        if r.chance(1, 5): script.append({"e": "tick", "ms": 1000 * (1 + r.below(5))})
+    script.append({"e": "drain"})
+    script += pay_ending(r, ending or r.choice(PAY_ENDINGS))
+    script.append({"e": "drain"})
+    if second:
+        # a second, fully funded set for the same invoice arrives while/after the first lifecycle finishes its bookkeeping
+        at = len(script) - 1 - r.below(4)
+        script.insert(max(0, at), b.htlc(inv, total, total, expiry=2200, rel=pol[2] + 50))
+        script += [{"e": "drain"}] + pay_ending(r, r.choice(PAY_ENDINGS)) + [{"e": "drain"}]
+    return {"cfg": cfg, "invoices": b.invoices, "preimages": b.preimages, "_script": script, "family": "story/%s/%s%s" % (ending, reject and reject[0], "/second" if second else ""),
+            "suffix": [{"e": "finale"}], "_b": b, "_probe": b.htlc(inv, total, total, expiry=5000, rel=pol[2] + 100)}
+
+def crash_variants(r, base, length, stride=1, probe=False, old_parts=None):
+    """The same story with a whole-node crash injected before primitive event k, then replay of the unanswered HTLCs."""
+    out = []
+    for k in range(1, length, stride):
+        c = dict(base)
+        c["crash_at"] = [k]
+        after = [{"e": "replay_unanswered"}]
+        if r.chance(1, 2): after.insert(0, {"e": "tick", "ms": 1000 * r.choice([1, 30, 61, 200])})
+        op = old_parts or r.choice(["done", "fail"])
+        after.append({"e": "finale", "old_parts": op, "mode": r.choice(["coop", "fail"])})
+        c["after_crash"] = after
+        c["suffix"] = []
+        c["family"] = base["family"] + "/crash@%d" % k
+        out.append(c)
+    return out
+
+def add_probe(c):
+    """C09 probe: after everything, crash, then a fully funded cooperative set (twice if the first hits a zero MPP remainder)."""
+    c = dict(c)
+    tail = [{"e": "finale", "old_parts": "fail"}, {"e": "crash"}, {"e": "tick", "ms": 1000}, dict(c["_probe"], probe=True),
+            {"e": "finale", "mode": "coop", "old_parts": "fail"}, {"e": "probe_retry"}, {"e": "finale", "mode": "coop", "old_parts": "fail"}]
+    if "after_crash" in c: c["after_crash"] = c["after_crash"] + tail
+    c["suffix"] = (c.get("suffix") or []) + tail
+    c["probe"] = True
+    return c
+
+
+# ------------------------------------------------------------------------------------------
+# odd requests: malformed payloads / metadata, plain forwards, unusable invoices (C06, C13)
+# ------------------------------------------------------------------------------------------
+MALFORMED = ["fd00", "fd", "fe0000", "fe000000", "ff00000000000000", "01", "0105", "01fd00", "80e9fd00", "fd80e9", "fd80e905aabb",
+             "fd80e9fd0001", "00", "0000", "80", "fdffff", "ffffffffffffffffff", "fd80e9ff0000000000000001"]
+
+def odd_htlcs(r, b, inv, amount, total):
+    """HTLC specs that are NOT well-formed trampoline requests (plus a few that are, with unusual encodings)."""
+    out = []
+    mk = lambda **kw: b.htlc(inv, amount, total, **kw)
+    for m in MALFORMED:
+        out.append(mk(raw_payload=payload(raw_meta=bytes.fromhex(m)).hex()))              # malformed metadata inside a valid payload
+        out.append(mk(raw_payload=m))                                                      # malformed payload itself
+        out.append(mk(raw_payload=(bigsize(len(bytes.fromhex(m))) + bytes.fromhex(m)).hex()))
+    out.append(mk(raw_payload=""))                                                         # empty payload
+    out.append(mk(raw_payload=payload().hex()))                                            # no metadata
+    out.append(mk(raw_payload=payload(raw_meta=tlv([(1, b"xx")])).hex()))                  # metadata without invoice
+    out.append(mk(raw_payload=payload(raw_meta=tlv([(33001, b"\xff\xfe\x80")])).hex()))    # invoice not utf-8
+    out.append(mk(raw_payload=payload(raw_meta=tlv([(33001, b"lnbc1notaninvoice")])).hex())) # not bech32
+    out.append(mk(raw_payload=payload(raw_meta=tlv([(33003, tu64(5))])).hex()))            # amount only
+    out.append(mk(raw_payload=payload(raw_meta=bigsize(3) + tlv([(1, b"x")])).hex()))      # metadata that is length-prefixed
+    out.append(mk(scid="1x1x1"))                                                            # plain forward carrying a trampoline invoice
+    out.append(mk(forward=None))                                                            # no forward_msat
+    for n in range(0, 10):                                                                  # amount field of 0-9 bytes
+        out.append(b.htlc(inv, amount, total, amount_tlv=bytes([1] * n)))
+    return out
+
+def odd_case(r, nhash=1):
+    cfg = mk_cfg(r)
+    b = CaseBuilder(r, cfg, nhash)
+    amount = 1000000
+    inv = b.add_invoice(0, amount)
+    need = fee_needed(cfg["policy"], amount)
+    odd = odd_htlcs(r, b, inv, need, need)
+    good = [b.htlc(inv, need // 2, need), b.htlc(inv, need - need // 2, need)]
+    script = []
+    pick = [odd[r.below(len(odd))] for _ in range(10)]
+    seq = pick[:5] + [good[0]] + pick[5:8] + [{"e": "drain"}, good[1]] + pick[8:] + [{"e": "drain"}]
+    script += seq + pay_ending(r, r.choice(PAY_ENDINGS)) + [{"e": "drain"}]
+    return {"cfg": cfg, "invoices": b.invoices, "preimages": b.preimages, "_script": script, "family": "odd/requests", "suffix": [{"e": "finale"}], "_b": b}
+
+def odd_all_case(r, lo, hi):
+    cfg = mk_cfg(r)
+    b = CaseBuilder(r, cfg, 1)
+    inv = b.add_invoice(0, 1000000)
+    need = fee_needed(cfg["policy"], 1000000)
+    odd = odd_htlcs(r, b, inv, need, need)[lo:hi]
+    return {"cfg": cfg, "invoices": b.invoices, "preimages": b.preimages, "_script": odd, "family": "odd/sweep", "suffix": [{"e": "finale"}]}
